@@ -116,3 +116,22 @@ def readDecode (hp : Bool) (ws : List Word) : Option RView :=
   if ws.length % (cells + 4) ≠ 0 then none else readRows hp (chunk (cells + 4) ws ws.length)
 
 end SlabRead
+
+namespace SlabRead
+open Wire Words
+
+def showRView (v : RView) : String :=
+  let ts := showList (fun (p : DT) => s!"{p.1}:{p.2}") v.times
+  let vs := ";".intercalate (v.vars.map (fun l => showWords l.flatten))
+  s!"nt={v.nt} nz={v.nz} times={ts} vars={vs}"
+
+/-- `bin slab-rd <0|1> <hex>`: the record reader of the one3d family (0) or of height/pressure files (1) -/
+def run : List String → String
+  | ["slab-rd", hp, hex] => match parseWords hex with
+    | some ws => (match readDecode (hp == "1") ws with
+      | some v => "ok " ++ showRView v
+      | none => "err read")
+    | none => "err parse"
+  | _ => "err unknown"
+
+end SlabRead
